@@ -932,7 +932,6 @@ impl TextPane for Buffer {
                 continue;
             }
             let ch = cur_layer.get_char(pos);
-            default_font_page = cur_layer.default_font_page;
             match cur_layer.properties.mode {
                 crate::Mode::Normal => {
                     if ch.is_visible() {
@@ -956,6 +955,9 @@ impl TextPane for Buffer {
                     // layers are looked at topmost first: the first override found is the one that is shown
                     if ch_opt.is_none() && ch.is_visible() && !ch.is_transparent() {
                         ch_opt = Some(ch.ch);
+                        // a character without a cell beneath it is shown in the font page of the layer it comes from,
+                        // a layer that adds nothing to the cell has no say in it
+                        default_font_page = cur_layer.default_font_page;
                     }
                 }
                 crate::Mode::Attributes => {
@@ -966,7 +968,7 @@ impl TextPane for Buffer {
             }
             // an opaque layer of any mode hides what lies beneath it, also where it has no cell
             if !cur_layer.properties.has_alpha_channel {
-                let mut res = merge(AttributedChar::default().with_font_page(default_font_page), ch_opt, attr_opt);
+                let mut res = merge(AttributedChar::default().with_font_page(cur_layer.default_font_page), ch_opt, attr_opt);
                 if attr_opt.is_some() {
                     // nothing beneath an opaque layer is seen: a transparent colour of the override shows a blank cell
                     // (a transparent cell remembered from a layer above is kept, it is filled from `res`)
@@ -983,13 +985,11 @@ impl TextPane for Buffer {
             return transparent_char;
         }
 
-        let mut ch = if self.is_terminal_buffer || ch_opt.is_some() || attr_opt.is_some() {
-            merge(AttributedChar::default(), ch_opt, attr_opt)
+        if self.is_terminal_buffer || ch_opt.is_some() || attr_opt.is_some() {
+            merge(AttributedChar::default().with_font_page(default_font_page), ch_opt, attr_opt)
         } else {
             AttributedChar::invisible()
-        };
-        ch.attribute.set_font_page(default_font_page);
-        ch
+        }
     }
 
     fn get_line_length(&self, line: i32) -> i32 {
